@@ -401,7 +401,25 @@ def defect_models(A, B, op, reg):
         if type(o.reg).containsPoint is R.PolygonalRegion.containsPoint:
             out.append(("pointset-intersection-ignores-height",
                         rr.Comp("intersect", ps.ref, rr.Comp("intersect", ball, relevel(o.ref)))))
+    if isinstance(reg, R.UnionRegion) and A.ref.dim == B.ref.dim and any(kite(x.ref) is not x.ref for x in (A, B)):
+        u = rr.Comp("union", A.ref, B.ref)  # generic union: true sectors are sampled, but chosen with weight = area of the polygon
+        u.weights = tuple(kite(x.ref).measure for x in (A, B))
+        u.desc = dict(u.desc, operand_weights=u.weights)
+        out.append(("sector-polygon-mask-cuts-arc", u))
+    if isinstance(reg, R.IntersectionRegion) and reg.sampler is None and any(isinstance(x.reg, R.PolylineRegion) for x in (A, B)):
+        # generic intersection: a sample must also pass its own region's containsPoint, which is exact for polylines
+        out.append(("generic-intersection-rejects-inexact-polyline-samples", rr.Comp("intersect", *(exact_line(x) for x in (A, B)))))
     return out
+
+
+def exact_line(x):
+    import scenic.core.regions as R
+    import shapely
+    if not isinstance(x.reg, R.PolylineRegion):
+        return x.ref
+    r = copy.copy(x.ref)
+    r.accept = lambda p: shapely.intersects_xy(x.reg.lineString, p[:, 0], p[:, 1])
+    return r
 
 
 def run(tape):
@@ -469,7 +487,7 @@ def run(tape):
 
         violations = judge(ref, stats, extra)
         need_chi2 = any(v["clause"] in ("uniformity-chi2", "cell-never-hit") for v in violations)
-        for fkey, mref in defect_models(A, B, op, reg) if violations and not generic else []:
+        for fkey, mref in defect_models(A, B, op, reg) if violations else []:
             st = {}
             if not judge(mref, st, {}) and (st.get("judged:uniformity") or not need_chi2):
                 for v in violations:
